@@ -269,8 +269,8 @@ Section Generic.
     destruct (n_final N o) as [n|].
     - destruct (Nat.eqb (psize (s_pop _ _ _ st)) n).
       + inversion H; subst; reflexivity.
-      + destruct (resample N P G pbeta resample_o (s_g _ _ _ st) (s_pop _ _ _ st) (one N) (Some n)) as [p1 g1].
-        destruct (mutate_o g1 p1 (one N) true) as [p2 g2]. inversion H; subst; reflexivity.
+      + destruct (resample N P G pbeta resample_o (s_g _ _ _ st) (s_pop _ _ _ st) (s_beta _ _ _ st) (Some n)) as [p1 g1].
+        destruct (mutate_o g1 p1 (s_beta _ _ _ st) true) as [p2 g2]. inversion H; subst; reflexivity.
     - inversion H; subst; reflexivity.
   Qed.
 
@@ -500,10 +500,10 @@ Section Invariant.
     - destruct (Nat.eqb (psize (s_pop _ _ _ st)) n).
       + inversion H; subst; clear H. cbn. split; auto. split; auto.
         unfold maybe_checkpoint. destruct (should_checkpoint N o true _); constructor; [apply Hg; auto| constructor].
-      + pose proof (resample_good (s_g _ _ _ st) (s_pop _ _ _ st) (one N) (Some n) Hp) as Hr.
-        destruct (resample N P G pbeta resample_o (s_g _ _ _ st) (s_pop _ _ _ st) (one N) (Some n)) as [p1 g1]. cbn [fst] in Hr.
-        pose proof (Hmut g1 p1 (one N) true Hr) as Hm.
-        destruct (mutate_o g1 p1 (one N) true) as [p2 g2]. cbn [fst] in Hm.
+      + pose proof (resample_good (s_g _ _ _ st) (s_pop _ _ _ st) (s_beta _ _ _ st) (Some n) Hp) as Hr.
+        destruct (resample N P G pbeta resample_o (s_g _ _ _ st) (s_pop _ _ _ st) (s_beta _ _ _ st) (Some n)) as [p1 g1]. cbn [fst] in Hr.
+        pose proof (Hmut g1 p1 (s_beta _ _ _ st) true Hr) as Hm.
+        destruct (mutate_o g1 p1 (s_beta _ _ _ st) true) as [p2 g2]. cbn [fst] in Hm.
         inversion H; subst; clear H. cbn. split; auto. split; auto.
         unfold maybe_checkpoint. destruct (should_checkpoint N o true _); constructor; [apply Hg; auto| constructor].
     - inversion H; subst; clear H. cbn. split; auto. split; auto.
